@@ -143,4 +143,33 @@ PROPS = {
         "assumptions": ["one key (operations on other keys do not touch its map entry, cells or file lock)", "a step that does not complete within 250 ms is reported as blocked"],
         "timeout": 3000,
     },
+    "C17": {
+        "lean_props": ["ZarrsModel.Props.C17"],
+        "harness": "c17",
+        "rule": "fixed-size configurations (all chains incl. nested sharding) at concurrency targets {1,2,4,16}: after a random history, the whole array, all chunks, cached and sharded-extension "
+                "reads and random multi-chunk regions are read with hook H4 recording every view write (allocation, offset, length) and every publish site; for EVERY published buffer the driver "
+                "judges that the recorded writes tile [0,len) (each byte exactly once), and on the plain multi-chunk path that the map equals the model's predicted map; "
+                "non-trivial = distinct read whose published buffer was assembled from at least two writes",
+        "nontrivial": lambda l: " wmaps=" in l and "," in l.split(" wmaps=")[1],
+        "exhaustive": False,
+        "trusted_base": COMMON_TB + ["hook H4 (view.write / view.publish / view.discard events in ArrayBytesFixedDisjointView and at the 7 publish sites) under cfg(zarrs_verif)",
+                                     "writes that bypass ArrayBytesFixedDisjointView (raw pointer writes, external codecs writing into buffers) are not observable"],
+        "assumptions": ["fixed-size data types (variable-size outputs are assembled by merge_chunks_vlen, covered by C01/C06 value comparison)"],
+    },
+    "C16": {
+        "claimed": False,
+        "lean_props": ["ZarrsModel.Props.C16"],
+        "harness": "c16",
+        "rule": "(a) C01-style histories at concurrency targets {1,2,3,8,16} x chunk_concurrent_minimum {1,4}, every outcome compared with the sequential model; (b) 2-3 client threads issuing "
+                "store/erase/retrieve calls on chunk-disjoint bands of one array through a second handle whose store is wrapped by a turn-taking gate that serialises the store-level operations "
+                "in a seeded random order; per-thread results and the final contents are compared with the sequential model; (c) cached reads through all thread-local cache flavours on sharded "
+                "arrays (incl. a 64x64 array of four 32x32 shards with 256 inner chunks each, fresh cache per read, rayon pools of 1,2,3,5 threads) with hook H5 reporting deterministically whether a cache "
+                "lock is held while its fill closure runs; non-trivial = distinct parallel section or read with a value outcome",
+        "nontrivial": lambda l: (" -> par " in l) or (" op retrieve" in l and " -> val " in l) or (" op tl_cached" in l and " -> val " in l),
+        "exhaustive": False,
+        "trusted_base": COMMON_TB + ["hook H5 (try_lock probes in the thread-local caches and at the start of fill closures) under cfg(zarrs_verif)",
+                                     "rayon's work-stealing schedule and real blocking are not in the model; the interleavings of store-level operations in (b) are sampled, the theorem covers all of them"],
+        "assumptions": ["client regions are chunk-disjoint (the documented condition for safe parallel use)"],
+        "timeout": 3000,
+    },
 }
